@@ -17,7 +17,7 @@ from vlib.core import Infra
 LEVEL = "model_checking"
 TIMEOUT = 20
 
-KINDS = ["ok", "foi", "syntax", "missing", "isdir", "unwritable", "infinite"]
+KINDS = ["ok", "foi", "syntax", "missing", "isdir", "unwritable", "infinite"] + (["devfull"] if os.path.exists("/dev/full") else [])
 
 OK_SRC = "package main\n\nlet f%d () =\n  %d\n"
 FOI_SRC = "package_info ext%d =\n  let G: int->int\n"
@@ -173,7 +173,7 @@ def observe(wd, name, args_spec, res):
     present = []
     badk = ""
     for i, (an, foi, gen) in enumerate(args_spec, 1):
-        if gen and os.path.isfile(gen):
+        if gen and os.path.isfile(gen) and not os.path.islink(gen):
             if os.path.getsize(gen) > 0:
                 present.append(i)
             else:
@@ -202,7 +202,7 @@ def fault_vectors(ctx, wd):
             base = "a%d" % i
             fo = os.path.join(d, base + (".foi" if k == "foi" else ".fo"))
             gen = os.path.join(d, "gen_" + base + ".go")
-            if k in ("ok", "unwritable"):
+            if k in ("ok", "unwritable", "devfull"):
                 open(fo, "w").write(OK_SRC % (n * 10 + i, i))
             elif k == "foi":
                 open(fo, "w").write(FOI_SRC % (n * 10 + i))
@@ -214,6 +214,8 @@ def fault_vectors(ctx, wd):
                 os.makedirs(fo)
             if k == "unwritable":
                 os.makedirs(gen)          # the destination is a directory: the write fails even for root
+            if k == "devfull":
+                os.symlink("/dev/full", gen)      # the destination opens, every write to it fails (ENOSPC)
             spec.append((fo, k == "foi", None if k == "foi" else gen))
         runs.append(("faults:" + ",".join(vec), d, spec))
     return runs
@@ -271,7 +273,7 @@ def scanner_layer(ctx):
 
 
 def run(ctx):
-    ctx.rule = ("(a) every fault vector over {ok, .foi, syntax error, missing, directory, unwritable destination, infinite type} for 1-2 "
+    ctx.rule = ("(a) every fault vector over {ok, .foi, syntax error, missing, directory, unwritable destination, destination that opens but cannot be written (/dev/full), infinite type} for 1-2 "
                 "arguments (3 arguments sampled in quick, all in thorough); (b) mutants of corpus programs and of 2 samples: truncation at "
                 "every offset, deletion / duplication of every token, swaps, indentation damage of every line, inserted delimiters / "
                 "keywords / stray and non-UTF-8 bytes, missing final newline, CRLF; (c) systematic self-application shapes, ill-typed and "
